@@ -150,6 +150,15 @@ JudgeSink(e) ==
              \cup (IF e.isPrefix THEN {} ELSE {"C14/AcceptedNotPrefix"}))
 JudgeAttSrc(e) == IF e.ret = "err" THEN {} ELSE IF e.ret = "panic" THEN {"C14/Panic"} ELSE {"C14/AttachmentSourceNotReported"}
 
+(* C17: conformance matrix.  Pin: the reference encoder reproduces the official binary (sha256 and size of the LFS
+   pointer); WriteTool: the Go write tool's output hashes to the same binary; ReadTool: the Go read tool prints the
+   expected record stream (streamed) / the expected indexed result *)
+JudgeConformance(e) ==
+  CASE e.ev = "Pin" -> IF e.ok THEN {} ELSE {"C17/Pin/ReferenceEncoderMismatch"}
+    [] e.ev = "WriteTool" -> (IF e.ran THEN {} ELSE {"C17/WriteTool/Failed"}) \cup (IF e.ran /\ ~e.hashok THEN {"C17/WriteTool/BytesDiffer"} ELSE {})
+    [] e.ev = "ReadTool" -> IF e.match THEN {} ELSE {"C17/ReadTool/" \o e.mode}
+    [] OTHER -> {}
+
 (* ---------------------------------------------------------------- machine *)
 Step(s, e) ==
   CASE e.ev = "Run"  -> NewRun(e)
@@ -167,6 +176,7 @@ Judge(s, e) ==
     [] e.ev = "Retain" -> JudgeRetain(s, e)
     [] e.ev = "Sink"   -> JudgeSink(e)
     [] e.ev = "AttSrc" -> JudgeAttSrc(e)
+    [] e.ev \in {"Pin", "WriteTool", "ReadTool"} -> JudgeConformance(e)
     [] OTHER -> {}
 
 Init == l = 1 /\ st = NoRun /\ rej = <<>>
